@@ -35,6 +35,10 @@ pub struct RecvExempt {
     pub count: u8,
     /// packet kind of the judged datagrams: 0 message, 1 handshake, 2 WHOAREYOU
     pub kind: u8,
+    /// the packet filter is switched off (the crate's default configuration): quotas do not apply,
+    /// the ban list still does - and an exemption still overrides it
+    #[serde(default)]
+    pub filter_off: bool,
 }
 
 async fn run_recv(c: &RecvExempt, rep: &mut CaseReport) -> Option<(String, String)> {
@@ -49,7 +53,10 @@ async fn run_recv(c: &RecvExempt, rep: &mut CaseReport) -> Option<(String, Strin
     *PERMIT_BAN_LIST.write() = Default::default();
     let hour = Duration::from_secs(3600);
     let rl = RateLimiterBuilder::new().total_n_every(50, hour).ip_n_every(2, hour).node_n_every(2, hour).build().expect("quota");
-    let cfg = FilterConfig { enabled: true, rate_limiter: Some(rl), max_nodes_per_ip: None, max_bans_per_ip: None };
+    let cfg = FilterConfig { enabled: !c.filter_off, rate_limiter: Some(rl), max_nodes_per_ip: None, max_bans_per_ip: None };
+    if c.filter_off {
+        rep.class("receive-task-companion/packet-filter-switched-off");
+    }
     let local = NodeId::new(&[0x66u8; 32]);
     let Ok(mut r) = VRecv::spawn(cfg, Some(hour), local).await else {
         return Some(("HARNESS/vrecv-spawn".into(), "could not start the receive task".into()));
@@ -111,7 +118,7 @@ async fn run_recv(c: &RecvExempt, rep: &mut CaseReport) -> Option<(String, Strin
             l.ban_nodes.insert(node, None);
         }
     }
-    let hostile = c.ban_ip || c.ban_node || c.warmup >= 3 || PERMIT_BAN_LIST.read().ban_ips.contains_key(&known.ip());
+    let hostile = c.ban_ip || c.ban_node || (c.warmup >= 3 && !c.filter_off) || PERMIT_BAN_LIST.read().ban_ips.contains_key(&known.ip());
     rep.class("receive-task-companion");
     rep.class(format!("receive-task-companion/source-kind-{}", c.addr_kind % 5));
     // while the node is waiting for something from that address, its datagrams pass
@@ -275,11 +282,11 @@ impl Property for C13 {
             })
             .prop_map(|(cfg, ops, drain)| Case { cfg, ops, drain, recv: None });
         let wire = wire_cases;
-        let companion = (wire_gen::config_strategy(false), 0u8..5, any::<bool>(), any::<bool>(), 0u8..6, 1u8..=3, 0u8..3).prop_map(|(cfg, addr_kind, ban_ip, ban_node, warmup, count, kind)| Case {
+        let companion = (wire_gen::config_strategy(false), 0u8..5, any::<bool>(), any::<bool>(), 0u8..6, 1u8..=3, 0u8..3, prop_oneof![2 => Just(false), 1 => Just(true)]).prop_map(|(cfg, addr_kind, ban_ip, ban_node, warmup, count, kind, filter_off)| Case {
             cfg,
             ops: vec![],
             drain: Drain::None,
-            recv: Some(RecvExempt { addr_kind, ban_ip, ban_node, warmup, count, kind }),
+            recv: Some(RecvExempt { addr_kind, ban_ip, ban_node, warmup, count, kind, filter_off }),
         });
         prop_oneof![60 => wire, 1 => companion].boxed()
     }
